@@ -118,31 +118,61 @@ impl From<Operand> for u64 {
 }
 
 impl Axecutor {
-    pub(crate) fn mem_addr(&self, o: MemOperand) -> u64 {
+    /// Reads a register used as base or index of a memory operand; with the 32-bit address-size
+    /// prefix these are 32-bit registers
+    fn mem_operand_register(&self, reg: SupportedRegister, what: &str) -> (u64, bool) {
+        let r: iced_x86::Register = reg.into();
+        if r.is_gpr32() {
+            (
+                self.reg_read_32(reg)
+                    .unwrap_or_else(|_| panic!("reading memory operand {what} register")),
+                true,
+            )
+        } else {
+            (
+                self.reg_read_64(reg)
+                    .unwrap_or_else(|_| panic!("reading memory operand {what} register")),
+                false,
+            )
+        }
+    }
+
+    /// The offset part of a memory operand's address, i.e. without the segment base (what LEA stores)
+    pub(crate) fn mem_offset(&self, o: MemOperand) -> u64 {
         let MemOperand {
             base,
             index,
             scale,
             displacement,
-            segment,
+            segment: _,
         } = o;
         let mut addr: u64 = 0;
+        let mut address_size_32 = false;
         if let Some(base) = base {
-            addr = addr.wrapping_add(
-                self.reg_read_64(base)
-                    .expect("reading memory operand base register"),
-            );
+            let (value, is_32) = self.mem_operand_register(base, "base");
+            address_size_32 |= is_32;
+            addr = addr.wrapping_add(value);
         }
         if let Some(index) = index {
-            addr = addr.wrapping_add(
-                self.reg_read_64(index)
-                    .expect("reading memory operand index register")
-                    .wrapping_mul(scale as u64),
-            );
+            let (value, is_32) = self.mem_operand_register(index, "index");
+            address_size_32 |= is_32;
+            addr = addr.wrapping_add(value.wrapping_mul(scale as u64));
         }
 
         // This overflow is explicitly allowed, as x86-64 encodes negative values as signed integers
         addr = addr.wrapping_add(displacement);
+
+        // With 32-bit addressing the offset wraps around at 4 GiB
+        if address_size_32 {
+            addr &= 0xffff_ffff;
+        }
+
+        addr
+    }
+
+    pub(crate) fn mem_addr(&self, o: MemOperand) -> u64 {
+        let segment = o.segment;
+        let mut addr = self.mem_offset(o);
 
         if let Some(reg) = segment {
             match reg {
@@ -201,6 +231,8 @@ impl Axecutor {
                     iced_x86::Register::None => None,
                     // If base is RIP, we can use the displacement as-it. No need to add it to the memory address
                     iced_x86::Register::RIP => None,
+                    // Same for EIP (32-bit address size), the displacement is already truncated
+                    iced_x86::Register::EIP => None,
                     r => Some(SupportedRegister::from(r)),
                 };
                 let index = match i.memory_index() {
